@@ -2,12 +2,17 @@ package checks
 
 import (
 	"fmt"
+	"io"
 	"math/rand/v2"
+	"net"
+	"net/http"
 	"strings"
+	"sync"
 	"testing"
 	"time"
 
 	"github.com/zishang520/engine.io/v2/config"
+	"github.com/zishang520/engine.io/v2/engine"
 	"github.com/zishang520/engine.io/v2/types"
 
 	"verifh/refcodec"
@@ -592,12 +597,149 @@ func runC12CloseDuringUpgrade(target string, nBuf int, r *rep.Report) (key, msg 
 	return
 }
 
+// runC12ListeningHttpServer: the engine is attached to a types.HttpServer that listens itself
+// (HttpServer.Listen, real TCP on loopback, real time); N polling sessions have their poll
+// outstanding when HttpServer.Close is called.  Every pending poll must be released with a close
+// or noop packet, every session closes exactly once, the table ends empty.
+func runC12ListeningHttpServer(n int, r *rep.Report) (key, msg string, ok bool) {
+	l, err := net.Listen("tcp", "127.0.0.1:0")
+	if err != nil {
+		return "", "loopback TCP unavailable: " + err.Error(), false
+	}
+	addr := l.Addr().String()
+	l.Close()
+	hs := types.NewWebServer(nil)
+	so := &config.ServerOptions{}
+	so.SetPingInterval(time.Hour)
+	eng := engine.NewServer(so)
+	eng.Attach(hs, nil)
+	var mu sync.Mutex
+	closes := map[string][]string{}
+	eng.On("connection", func(a ...any) {
+		s := a[0].(engine.Socket)
+		s.On("close", func(b ...any) {
+			mu.Lock()
+			closes[s.Id()] = append(closes[s.Id()], fmt.Sprint(b[0]))
+			mu.Unlock()
+		})
+	})
+	hs.Listen(addr, nil)
+	base := "http://" + addr + "/engine.io/?EIO=4&transport=polling"
+	hc := &http.Client{Transport: &http.Transport{MaxIdleConnsPerHost: 64}, Timeout: 20 * time.Second}
+	defer hc.CloseIdleConnections()
+	var sids []string
+	for i := 0; i < n; i++ {
+		var body []byte
+		for try := 0; try < 100; try++ {
+			resp, err := hc.Get(base)
+			if err != nil {
+				time.Sleep(5 * time.Millisecond) // the listener is coming up
+				continue
+			}
+			body, _ = io.ReadAll(resp.Body)
+			resp.Body.Close()
+			break
+		}
+		k := strings.Index(string(body), `"sid":"`)
+		if k < 0 {
+			hs.Close(nil)
+			return "", fmt.Sprintf("handshake over loopback TCP failed (%q)", body), false
+		}
+		sid := string(body)[k+7:]
+		sids = append(sids, sid[:strings.Index(sid, `"`)])
+	}
+	type pr struct {
+		body string
+		code int
+		err  error
+	}
+	res := make(chan pr, n)
+	for _, sid := range sids {
+		go func(sid string) {
+			resp, err := hc.Get(base + "&sid=" + sid)
+			if err != nil {
+				res <- pr{err: err}
+				return
+			}
+			b, err := io.ReadAll(resp.Body)
+			resp.Body.Close()
+			res <- pr{body: string(b), code: resp.StatusCode, err: err}
+		}(sid)
+	}
+	// all polls pending: the server has a request per session
+	pending := 0
+	for try := 0; try < 2000 && pending != n; try++ {
+		pending = 0
+		for _, sid := range sids {
+			if s, ok := eng.Clients().Load(sid); ok && s.Transport().Writable() {
+				pending++
+			}
+		}
+		if pending != n {
+			time.Sleep(5 * time.Millisecond)
+		}
+	}
+	if pending != n {
+		hs.Close(nil)
+		return "", fmt.Sprintf("only %d of %d polls reached the server within 10 s", pending, n), false
+	}
+	done := make(chan struct{})
+	go func() { hs.Close(nil); close(done) }()
+	bad := ""
+	for i := 0; i < n; i++ {
+		select {
+		case p := <-res:
+			if p.err != nil || p.code != 200 || (p.body != "1" && p.body != "6") {
+				bad = fmt.Sprintf("status %d body %q err %v", p.code, p.body, p.err)
+			}
+		case <-time.After(15 * time.Second):
+			return "", "a pending poll neither completed nor failed within 15 s of HttpServer.Close", false
+		}
+	}
+	select {
+	case <-done:
+	case <-time.After(15 * time.Second):
+		return "", "HttpServer.Close did not return within 15 s", false
+	}
+	if bad != "" {
+		return "c12-pending-poll-not-released", fmt.Sprintf("HttpServer.Close with %d polling sessions whose poll was outstanding (server listening itself on loopback TCP): a pending poll was not released with a close or noop packet: %s", n, bad), true
+	}
+	time.Sleep(20 * time.Millisecond)
+	mu.Lock()
+	defer mu.Unlock()
+	for _, sid := range sids {
+		if len(closes[sid]) != 1 {
+			return "c12-shutdown-close-events", fmt.Sprintf("HttpServer.Close: session %s has close events %v", sid, closes[sid]), true
+		}
+	}
+	if eng.Clients().Len() != 0 || eng.ClientsCount() != 0 {
+		return "c12-shutdown-table-not-empty", fmt.Sprintf("after HttpServer.Close the table has %d entries, count %d", eng.Clients().Len(), eng.ClientsCount()), true
+	}
+	return "", "", true
+}
+
 func TestC12(t *testing.T) {
 	r := rep.New(t, "C12")
 	defer r.Flush()
-	r.Rule("PRNG cases: graceful Close(false) with 0-4 accepted-but-unsent packets on polling (poll pending or absent), WebSocket and WebTransport, optionally with the transport's writer goroutine held at *.send.start while Close runs; silent client (bounded close time on virtual time); a pending poll while the session closes by each cause (incl. the client's own close packet); Server.Close and HttpServer.Close with 1-20 mixed sessions, buffered packets, sessions already waiting in a graceful close, and an upgrade in progress; oracle: all accepted messages before the close packet/teardown, reason 'forced close', close within max(30 s, PI+PT)+PT, pending poll answered 200 with close/noop, exactly one close event per session and an empty table after shutdown; distinct = case signature")
+	r.Rule("PRNG cases: graceful Close(false) with 0-4 accepted-but-unsent packets on polling (poll pending or absent), WebSocket and WebTransport, optionally with the transport's writer goroutine held at *.send.start while Close runs; silent client (bounded close time on virtual time); a pending poll while the session closes by each cause (incl. the client's own close packet); Server.Close and HttpServer.Close with 1-20 mixed sessions (also with the HttpServer listening itself on loopback TCP and every session's poll outstanding), buffered packets, sessions already waiting in a graceful close, and an upgrade in progress; oracle: all accepted messages before the close packet/teardown, reason 'forced close', close within max(30 s, PI+PT)+PT, pending poll answered 200 with close/noop, exactly one close event per session and an empty table after shutdown; distinct = case signature")
 	if r.Lane == 1%r.Lanes {
 		quicClose(r, 12, r.N(8, 320), true)
+	}
+	if r.Lane == 2%r.Lanes {
+		for k := 0; k < r.N(12, 240); k++ {
+			n := []int{1, 4, 12}[k%3]
+			key, msg, ok := runC12ListeningHttpServer(n, r)
+			if !ok {
+				r.Obs("listening_http_server_rounds_skipped", 1)
+				r.Assume("listening-HttpServer lane skipped or cut short: " + msg)
+				continue
+			}
+			r.Case(fmt.Sprintf("listening-http-server-close/%d", n), true)
+			r.Obs("http_server_close_with_pending_polls_over_tcp", 1)
+			if key != "" {
+				r.Violation(key, msg, map[string]any{"lane": "HttpServer.Listen on loopback TCP, polls outstanding, HttpServer.Close", "sessions": n})
+			}
+		}
 	}
 	if r.Lane == 3%r.Lanes {
 		for k := 0; k < r.N(8, 400); k++ {
